@@ -142,28 +142,31 @@ Fixpoint remove_one (x : string) (l : list string) : list string :=
 (* name2treepos = {mother: i for i, t in enumerate(...)}: the LAST table with that mother *)
 Definition find_table_last (m : string) (T : list table) : option (list line) := find_table m (rev T).
 
+(* CDecay names that have no Decay table of their own *)
+Definition cc_names (cdecays : list string) (T : list table) : list string :=
+  fold_left (fun l d => remove_one d l) (filter (fun n => smem n (map fst T)) cdecays) cdecays.
+
+(* the tables to conjugate: the table of the conjugate of X, when there is one *)
+Definition cc_sources (ccdb : string -> string) (ccdefs : pdict string) (cdecays : list string) (T : list table) : list table :=
+  flat_map (fun X => let name := cc_match ccdb ccdefs X in
+                     match find_table_last name T with Some ls => [(name, ls)] | None => [] end) (cc_names cdecays T).
+
+Definition cstep_t (ccdb : string -> string) (selfconj : string -> option bool)
+                   (acc : pdict string * list table) (t : table) : pdict string * list table :=
+  let '(d, out) := acc in
+  match selfconj (fst t) with
+  | Some true => (d, out ++ [t])%list                        (* warning; copied unconjugated *)
+  | _ => match d with
+         | [] => let '(_, t') := conj_table ccdb [] t in (d, out ++ [t'])%list   (* private dict per visitor *)
+         | _ => let '(d', t') := conj_table ccdb d t in (d', out ++ [t'])%list
+         end
+  end.
+
 Definition add_cc (ccdb : string -> string) (selfconj : string -> option bool)
                   (cdecays : list string) (ccdefs : pdict string) (T : list table) : list table :=
-  let mothers := map fst T in
-  let dups := filter (fun n => smem n mothers) cdecays in
-  let names := fold_left (fun l d => remove_one d l) dups cdecays in
-  match names with
+  match cc_names cdecays T with
   | [] => T
-  | _ =>
-      let sources := flat_map (fun ccname =>
-                        let name := cc_match ccdb ccdefs ccname in
-                        match find_table_last name T with Some ls => [(name, ls)] | None => [] end) names in
-      let '(_, out) :=
-        fold_left (fun (acc : pdict string * list table) (t : table) =>
-                     let '(d, out) := acc in
-                     match selfconj (fst t) with
-                     | Some true => (d, out ++ [t])%list               (* warning; copied unconjugated *)
-                     | _ => match d with
-                            | [] => let '(_, t') := conj_table ccdb [] t in (d, out ++ [t'])%list  (* private dict *)
-                            | _ => let '(d', t') := conj_table ccdb d t in (d', out ++ [t'])%list
-                            end
-                     end) sources (ccdefs, []) in
-      (T ++ out)%list
+  | _ => (T ++ snd (fold_left (cstep_t ccdb selfconj) (cc_sources ccdb ccdefs cdecays T) (ccdefs, [])))%list
   end.
 
 (* ------------------------------------------------------------------ parse() *)
